@@ -348,15 +348,15 @@ def self_test(ctx, variant, paths, macro_sep=True):
 GENERIC = {
     # prop: (quick sizes, thorough sizes, events)
     "C01": dict(q=dict(cover_n=1200, soup_n=5000, trunc_n=800, mb_n=300, gen_n=4000), t=dict(cover_n=-1, soup_n=60000, trunc_n=6000, mb_n=3000, corpus_trunc=400), events=True),
-    "C02": dict(q=dict(cover_n=1200, soup_n=4000, trunc_n=300, mb_n=800, extra=dict(sep_family=1500, multiline_family=2500)), t=dict(cover_n=40000, soup_n=50000, trunc_n=4000, mb_n=8000, extra=dict(sep_family=20000, multiline_family=30000)), events=True),
-    "C03": dict(q=dict(cover_n=1200, soup_n=3000, mb_n=2500, trunc_n=200, extra=dict(sep_family=1500, multiline_family=2500)), t=dict(cover_n=40000, soup_n=40000, mb_n=30000, trunc_n=2000, extra=dict(sep_family=20000, multiline_family=30000)), events=True),
-    "C04": dict(q=dict(cover_n=1200, soup_n=3000, lf_n=1200, mb_n=300, extra=dict(sep_family=1500, multiline_family=2500)), t=dict(cover_n=40000, soup_n=40000, lf_n=15000, mb_n=3000, extra=dict(sep_family=20000, multiline_family=30000)), events=True),
-    "C05": dict(q=dict(cover_n=1200, soup_n=3000, lf_n=1200, mb_n=300, extra=dict(sep_family=1500, multiline_family=2500)), t=dict(cover_n=40000, soup_n=40000, lf_n=15000, mb_n=3000, extra=dict(sep_family=20000, multiline_family=30000)), events=False),
+    "C02": dict(q=dict(cover_n=1200, soup_n=4000, trunc_n=300, mb_n=800, extra=dict(sep_family=1500, multiline_family=2500, err_family=800)), t=dict(cover_n=40000, soup_n=50000, trunc_n=4000, mb_n=8000, extra=dict(sep_family=20000, multiline_family=30000, err_family=10000)), events=True),
+    "C03": dict(q=dict(cover_n=1200, soup_n=3000, mb_n=2500, trunc_n=200, extra=dict(sep_family=1500, multiline_family=2500, err_family=800)), t=dict(cover_n=40000, soup_n=40000, mb_n=30000, trunc_n=2000, extra=dict(sep_family=20000, multiline_family=30000, err_family=10000)), events=True),
+    "C04": dict(q=dict(cover_n=1200, soup_n=3000, lf_n=1200, mb_n=300, extra=dict(sep_family=1500, multiline_family=2500, err_family=800)), t=dict(cover_n=40000, soup_n=40000, lf_n=15000, mb_n=3000, extra=dict(sep_family=20000, multiline_family=30000, err_family=10000)), events=True),
+    "C05": dict(q=dict(cover_n=1200, soup_n=3000, lf_n=1200, mb_n=300, extra=dict(sep_family=1500, multiline_family=2500, err_family=800)), t=dict(cover_n=40000, soup_n=40000, lf_n=15000, mb_n=3000, extra=dict(sep_family=20000, multiline_family=30000, err_family=10000)), events=False),
     "C06": dict(q=dict(cover_n=1200, soup_n=5000, trunc_n=400, mb_n=500, case_n=300), t=dict(cover_n=40000, soup_n=60000, trunc_n=5000, mb_n=5000, case_n=3000), events=False),
     "C07": dict(q=dict(cover_n=1200, soup_n=3000, trunc_n=300, mb_n=300, extra=dict(string_family=5000)), t=dict(cover_n=40000, soup_n=30000, trunc_n=3000, mb_n=3000, extra=dict(string_family=80000)), events="all"),
     "C08": dict(q=dict(soup_n=2000, extra=dict(num_family=6000)), t=dict(soup_n=20000, extra=dict(num_family=150000)), events=False),
     "C11": dict(q=dict(soup_n=2000, extra=dict(oc_family=12000)), t=dict(soup_n=20000, extra=dict(oc_family=150000)), events=False),
-    "C09": dict(q=dict(cover_n=1200, soup_n=4000, trunc_n=800, gen_n=6000), t=dict(cover_n=40000, soup_n=60000, trunc_n=8000, corpus_trunc=400, gen_n=80000), events=True),
+    "C09": dict(q=dict(cover_n=1200, soup_n=4000, trunc_n=800, gen_n=6000, mb_n=1500, extra=dict(string_family=2500, err_family=1500)), t=dict(cover_n=40000, soup_n=60000, trunc_n=8000, corpus_trunc=400, gen_n=80000, mb_n=15000, extra=dict(string_family=30000, err_family=20000)), events=True),
     "C10": dict(q=dict(cover_n=1200, soup_n=4000, trunc_n=1000, gen_n=4000), t=dict(cover_n=40000, soup_n=60000, trunc_n=8000, corpus_trunc=400), events=False),
 }
 
@@ -1022,6 +1022,9 @@ def twin_mc(ctx, twin):
 
 # ----------------------------------------------------------------------------- Gen (C12-C14)
 
+GEN_FOCUS = ["Builtin", "CallArgs", "StrCall", "DQuoted", "MacroDef", "DoBlock", "MacroStmt"]
+
+
 def gen_programs(ctx, fault, sim_n, fuel_sim, fuel_mc=None, mc_timeout=300):
     """Runs TLC on spec/Gen.tla (simulation, and optionally exhaustive enumeration with small fuel) and
     returns the list of derivations (dicts with src, exps, fault)."""
@@ -1039,11 +1042,14 @@ def gen_programs(ctx, fault, sim_n, fuel_sim, fuel_mc=None, mc_timeout=300):
                 n += 1
         return n
 
-    cfg = "SPECIFICATION Spec\nCONSTANTS\n  Fuel = %d\n  AllowFault = %s\n  Small = FALSE\nCHECK_DEADLOCK FALSE\n"
+    cfg = "SPECIFICATION Spec\nCONSTANTS\n  Fuel = %d\n  AllowFault = %s\n  Small = FALSE\n  Focus = \"%s\"\nCHECK_DEADLOCK FALSE\n"
     fl = "TRUE" if fault else "FALSE"
-    for k, fuel in enumerate(fuel_sim):
-        rc, out, wall = common.tlc("Gen", cfg % (fuel, fl), ctx.dir, "gen-sim-%d" % k, workers=1, timeout=600,
-                                   extra_args=["-simulate", "num=%d" % (sim_n // len(fuel_sim)), "-depth", "900",
+    # whole programs under several fuel bounds, then derivations concentrated on one construct each
+    runs = [(fuel, "", sim_n // len(fuel_sim)) for fuel in fuel_sim] + \
+           [(6, fc, max(200, sim_n // 16)) for fc in GEN_FOCUS]
+    for k, (fuel, focus, num) in enumerate(runs):
+        rc, out, wall = common.tlc("Gen", cfg % (fuel, fl, focus), ctx.dir, "gen-sim-%d" % k, workers=1, timeout=600,
+                                   extra_args=["-simulate", "num=%d" % num, "-depth", "900",
                                                "-seed", str(ctx.seed + k)])
         n = harvest(out)
         if n == 0:
@@ -1055,7 +1061,7 @@ def gen_programs(ctx, fault, sim_n, fuel_sim, fuel_mc=None, mc_timeout=300):
             ctx.states += int(m.group(1))
             ctx.transitions += int(m.group(1))
     if fuel_mc is not None:
-        rc, out, wall = common.tlc("Gen", cfg % (fuel_mc, fl) + "CONSTRAINT Bounded\n", ctx.dir, "gen-mc", workers=8,
+        rc, out, wall = common.tlc("Gen", cfg % (fuel_mc, fl, "") + "CONSTRAINT Bounded\n", ctx.dir, "gen-mc", workers=8,
                                    timeout=mc_timeout, heap="8g")
         if "Model checking completed" not in out:
             raise ToolError("Gen enumeration did not complete:\n" + out[-2000:])
